@@ -178,6 +178,14 @@ def targeted_mutants(doc_small, doc_shipped):
         "upper-case hex prefix": "0XFF == 255", "upper-case binary prefix": "0B11 == 3", "upper-case octal prefix": "0O17 == 15",
         "upper-case IF": "IF true THEN true ELSE false", "upper-case LET": "LET a = 1 IN a == 1", "upper-case TRUE": "TRUE",
     })
+    # syntax and type errors around non-ASCII text, nested so that the error trace gets long; shifted byte by byte so that any
+    # fixed-size cut of a message falls inside a multi-byte character for one of them
+    for pad in range(4):
+        x = "x" * pad
+        bad_rules["syntax error nested behind non-ASCII text (shift %d)" % pad] = '(request.target.host =~ "%s测试.中国.пример.испытание" && ((((1 +)))))' % x
+        bad_rules["type error nested behind non-ASCII text (shift %d)" % pad] = '(request.target.host == "%sбольшой-и-длинный-хост.рф" && ((((request.target.port + "%s测试")))))' % (x, "é" * 300)
+        bad_rules["non-ASCII comment before a syntax error (shift %d)" % pad] = '/* %sкомментарий 注释 %s */ (request.listener == )' % (x, "ü" * 400)
+        bad_rules["valid filter with non-ASCII literals (shift %d)" % pad] = 'request.target.host == "%s测试.中国" || request.target.host =~ "пример$"' % x
     for rname, f in bad_rules.items():
         m("rule filter: " + rname, doc_small, lambda d, f=f: d["rules"].insert(0, {"filter": f, "target": "direct"}), "rule")
     for depth in (10, 100, 1000, 10000, 100000):
